@@ -187,6 +187,61 @@ fn interval_body_us(period_us: u64, burn: bool, exit_after_ticks: u64, kill: boo
     })
 }
 
+/// Timers armed while their target is still starting (status Starting: its mailbox already accepts messages).
+/// The target comes from spawn_instant and its pre_start takes `start_half_periods` / 2 periods; the interval
+/// and a one-shot timer are armed right after the start-up task began. Every tick is sent at k periods (those
+/// of the start-up phase are handled as soon as the actor runs), the one-shot message arrives once.
+fn timers_while_starting_body(period_ms: u64, start_half_periods: u64, total_ticks: u64) -> vsched::Body {
+    Arc::new(move || {
+        Box::pin(async move {
+            let log = Log::default();
+            let p = period_ms * 1_000_000;
+            let start_ns = start_half_periods * p / 2;
+            let prog = Prog { pre_start: vec![Step::Tick, Step::SleepMs(start_ns / 1_000_000), Step::Tick], ..Default::default() };
+            let (a, outer) = ractor::ActorRuntime::<Probe>::spawn_instant(None, Probe, args("A", prog, &log)).expect("instant A");
+            // let the start-up task begin: the actor is Starting from here on
+            while a.get_status() == ractor::ActorStatus::Unstarted {
+                vsched::yield_now().await;
+            }
+            let status_when_armed = a.get_status();
+            let t0 = vsched::now();
+            let h = a.send_interval(Duration::from_millis(period_ms), || do_msg(1, vec![]));
+            let once = a.send_after(Duration::from_millis(period_ms), || do_msg(2, vec![]));
+            let ah = outer.await.expect("outer").expect("A starts");
+            let started_at = vsched::now() - t0;
+            let exit_at = total_ticks * p + p / 4;
+            vsched::sleep(Duration::from_nanos(exit_at.saturating_sub(started_at))).await;
+            let all = handled(&log, "A");
+            let ts: Vec<u64> = all.iter().filter(|x| x.0 == 1).map(|x| x.1 - t0).collect();
+            let ones = all.iter().filter(|x| x.0 == 2).count();
+            a.stop(None);
+            let _ = ah.await;
+            let mut bad = Vec::new();
+            if status_when_armed != ractor::ActorStatus::Starting {
+                bad.push(format!("(harness) the timers were meant to be armed while the target was Starting, it was {status_when_armed:?}"));
+            }
+            if ts.len() as u64 != total_ticks {
+                bad.push(format!("an interval of {period_ms} ms armed while its target was starting (start-up took {start_ns} ns) delivered {} messages in {total_ticks} periods: {ts:?}", ts.len()));
+            }
+            for (i, t) in ts.iter().enumerate() {
+                let k = (i + 1) as u64;
+                let due = (k * p).max(started_at);
+                if *t < k * p || *t > due {
+                    bad.push(format!("interval message {k} was handled at {t} ns, expected at {due} ns (k periods, or the end of the start-up)"));
+                }
+            }
+            if ones != 1 {
+                bad.push(format!("a send_after armed while its target was starting delivered {ones} messages"));
+            }
+            if !matches!(once.await, Ok(Ok(()))) {
+                bad.push("the send_after handle does not report success".to_string());
+            }
+            h.abort();
+            Outcome { key: format!("ticks={ts:?} once={ones}"), violations: bad }
+        })
+    })
+}
+
 fn exit_kill_after_body(period_ms: u64, kill: bool, busy: bool) -> vsched::Body {
     exit_kill_after_body_x(period_ms, kill, busy, false)
 }
@@ -346,6 +401,9 @@ pub fn plan(tier: &str) -> Plan {
     }
     for (p, kill) in [(0u64, false), (5, false), (5, true)] {
         units.push(Unit::explore(Job::new(format!("{}/{p}ms/instant-target", if kill { "kill_after" } else { "exit_after" }), cfg.clone(), Some(bound), exit_kill_after_body_x(p, kill, false, true))));
+    }
+    for (p, halves, ticks) in [(2u64, 7u64, 6u64), (1, 4, 3), (5, 1, 2)] {
+        units.push(Unit::explore(Job::new(format!("while-starting/{p}ms/startup-{halves}-half-periods/{ticks}ticks"), cfg.clone(), Some(bound), timers_while_starting_body(p, halves, ticks))));
     }
     for (p, kill) in [(0u64, false), (0, true), (1, false), (5, false), (5, true)] {
         units.push(Unit::explore(Job::new(format!("{}/{p}ms/aborted", if kill { "kill_after" } else { "exit_after" }), cfg.clone(), Some(bound), exit_kill_abort_body(p, kill))));
